@@ -130,9 +130,11 @@ Definition parse_nat (l : txt) : option N :=
 (* int(s) on an already stripped field: optional sign, at least one ASCII digit *)
 Definition parse_int (l : txt) : option Z :=
   match l with
-  | "-" :: r => option_map (fun n => Z.opp (Z.of_N n)) (parse_nat r)
-  | "+" :: r => option_map Z.of_N (parse_nat r)
-  | _ => option_map Z.of_N (parse_nat l)
+  | c :: r =>
+      if Ascii.eqb c "-" then option_map (fun n => Z.opp (Z.of_N n)) (parse_nat r)
+      else if Ascii.eqb c "+" then option_map Z.of_N (parse_nat r)
+      else option_map Z.of_N (parse_nat l)
+  | [] => None
   end.
 
 Fixpoint txt_of_uint (d : Decimal.uint) : txt :=
